@@ -357,6 +357,11 @@ def level_pairing(ctx, c, o):
         # self._buffer[0][1] -> 'e:<head id>' ;  self._buffer[0][0] -> arrival of the head
         if isinstance(e, ast.Subscript) and ast.unparse(e) == 'self._buffer[0][1]':
             return 'e' + st.fields['#hid']
+        if isinstance(e, ast.Subscript) and isinstance(e.value, ast.Name) and isinstance(e.slice, ast.Constant) and e.slice.value == 1:
+            # `oldest = self._buffer[0]` ... `oldest[1]`: the entry was named first (single definition in this frame)
+            r_ = FrameEnv(frame).resolve(e.value.id)
+            if r_ is not None and ast.unparse(r_[0]) == 'self._buffer[0]':
+                return 'e' + st.fields['#hid']
         if isinstance(e, ast.Call) and call_attr(e) in COUNT_NAMES and e.args:
             v = an.ev(e.args[0], st, frame)
             # a count taken after the head was handed over is a different number: the receiver may have unpacked the batch in place
